@@ -226,6 +226,23 @@ func sessAskB(l *LspServer, ub lsp.DocumentURI) []string {
 	return out
 }
 
+// sessRanged turns "cur becomes target" (both end with a newline) into two ranged changes to be applied in order.
+func sessRanged(cur string, target string) []lsp.TextDocumentContentChangeEvent {
+	lines, firstEnd := 0, 0
+	for i := 0; i < len(cur); i++ {
+		if cur[i] == '\n' {
+			lines++
+		}
+	}
+	for firstEnd < len(target) && target[firstEnd] != '\n' {
+		firstEnd++
+	}
+	firstEnd++
+	r1 := lsp.Range{Start: lsp.Position{Line: 0, Character: 0}, End: lsp.Position{Line: 1, Character: 0}}
+	r2 := lsp.Range{Start: lsp.Position{Line: 1, Character: 0}, End: lsp.Position{Line: uint32(lines), Character: 0}}
+	return []lsp.TextDocumentContentChangeEvent{{Range: &r1, Text: target[:firstEnd]}, {Range: &r2, Text: target[firstEnd:]}}
+}
+
 func VerifRun_Session() {
 	root := verifVFSRoot()
 	a, b, c := root+"/a.lua", root+"/b.lua", root+"/c.lua"
@@ -259,9 +276,16 @@ func VerifRun_Session() {
 		case 0: // type
 			v := verifConcretize(verifRange("ver", 0, len(sessA)-1))
 			openA()
+			changes := []lsp.TextDocumentContentChangeEvent{{Text: sessA[v]}}
+			if verifParamOr("RANGED", 0) == 1 {
+				// the same edit as ONE notification with TWO ranged changes (multi-cursor edit, replace-all,
+				// format-on-type): the first line replaced by the new first line, then - in the document as it
+				// is after that - everything from line 1 to the end replaced by the rest of the new text
+				changes = sessRanged(cur, sessA[v])
+			}
 			_ = l.TextDocumentDidChange(ctx, lsp.DidChangeTextDocumentParams{
 				TextDocument:   lsp.VersionedTextDocumentIdentifier{TextDocumentIdentifier: lsp.TextDocumentIdentifier{URI: ua}},
-				ContentChanges: []lsp.TextDocumentContentChangeEvent{{Text: sessA[v]}}})
+				ContentChanges: changes})
 			cur = sessA[v]
 			unsaved = cur != disk || unsaved
 		case 1: // save
